@@ -78,8 +78,8 @@ class Sim:
         self.stats['probes'][name] = self.stats['probes'].get(name, 0) + n
 
     # -- helpers -----------------------------------------------------------------------------
-    def materialise(self, res, route='xml', quote='"', tag=''):
-        data = xmlout.resource_xml(self.u, res, quote=quote)
+    def materialise(self, res, route='xml', quote='"', tag='', style=None):
+        data = xmlout.resource_xml(self.u, res, quote=quote, style=style)
         d = self.W.workdir('in-%s-%d%s' % (res['name'], self.step, tag))
         return xmlout.package(route if route != 'mem' else 'xml', d, res['name'], data), data
 
@@ -159,7 +159,7 @@ class Sim:
     def op_add(self, op):
         res = self.res[op['res']]
         route = op.get('route', 'xml')
-        path, _ = self.materialise(res, route, op.get('quote', '"'))
+        path, _ = self.materialise(res, route, op.get('quote', '"'), style=op.get('style'))
         self._knobs(op)
         W = self.W
         W.begin_op(budget=self.budget, record=bool(op.get('record')))
